@@ -57,7 +57,7 @@ var fixtures = [][]fent{
 		{"/etc/secret", false},
 	},
 	{ // fx2
-		{"/b/obj", false}, {"/buckets/.uploads/u1/0001.part", false}, {"/buckets/b", true},
+		{"/b/obj", false}, {"/buckets/%62/.uploads/u1/0001.part", false}, {"/buckets/.uploads/u1/0001.part", false}, {"/buckets/b", true},
 		{"/buckets/other/new", false}, {"/buckets/other/x/y", false}, {"/obj", false},
 	},
 }
@@ -75,17 +75,18 @@ func build(e *s3env.Env, fx int) {
 	}
 }
 
-// inOwn: p is the bucket directory of a well-named bucket or lies inside it.
+// inOwn: p is the bucket directory (by the bucket's literal name) or lies inside it; a
+// name the router must refuse owns nothing.
 func inOwn(bucket, p string) bool {
-	if badBucket(bucket) {
+	if refusedBucket(bucket) {
 		return false
 	}
 	d := "/buckets/" + bucket
 	return p == d || strings.HasPrefix(p, d+"/")
 }
 
-func badBucket(b string) bool {
-	return b == "" || b == "." || b == ".." || strings.ContainsAny(b, "/%")
+func refusedBucket(b string) bool {
+	return b == "" || b == "." || b == ".." || strings.Contains(b, "/")
 }
 
 func outsideSnapshot(e *s3env.Env, bucket string) string {
@@ -105,7 +106,7 @@ func outsideSnapshot(e *s3env.Env, bucket string) string {
 var segIdent = map[string]string{"": "s_", "buckets": "sbuckets", "b": "sb", "other": "sother", "obj": "sobj", "keep": "skeep",
 	"x": "sx", "y": "sy", "new": "snew", "..": "sdd", ".": "sd1", ".uploads": "sup", "u1": "su1", "u2": "su2", "etc": "setc",
 	"secret": "ssecret", "0001.part": "sp1", "0002.part": "sp2", "UUID": "suuid", "%2e%2e": "spdd", "k": "sk",
-	"bb": "sbb", "nb": "snb", "oth": "soth", "e": "se", "a": "sa", "%2f": "spct2f", "%252e%252e": "spdd2"}
+	"bb": "sbb", "nb": "snb", "oth": "soth", "e": "se", "a": "sa", "%2f": "spct2f", "%252e%252e": "spdd2", "%62": "sp62"}
 
 func coqSeg(s string) string {
 	if id, ok := segIdent[s]; ok {
@@ -419,10 +420,12 @@ func decodedObject(rawBkt, bucket, rawKey string) string {
 	return strings.TrimPrefix(u.Path, "/"+bucket+"/")
 }
 
-// genBucket: mostly the fixture's main bucket; its neighbours; names that are not
-// ordinary names (SkipClean(true) lets "." and ".." reach the {bucket} matcher).
+// genBucket: mostly the fixture's main bucket; its neighbours; the names the router's
+// {bucket} pattern refuses ("." and "..", written literally or escaped; SkipClean(true) lets
+// them reach the matcher) and dotted names it accepts; names with a "%" (written %25..),
+// which decode to another bucket, to "..", to "." or not at all.
 func genBucket(r *hx.Rng) (bucket, raw string) {
-	switch r.Intn(20) {
+	switch r.Intn(24) {
 	case 0, 1:
 		return "other", "other"
 	case 2:
@@ -435,6 +438,16 @@ func genBucket(r *hx.Rng) (bucket, raw string) {
 		return ".", r.PickStr([]string{".", "%2e"})
 	case 6:
 		return ".uploads", ".uploads"
+	case 7, 8:
+		return "%62", "%2562"
+	case 9:
+		b := r.PickStr([]string{"%6fther", "%2e%2e", "%2e", "%zz", "b%2fx", "%2562", "%62b", "%2euploads", "%6"})
+		return b, strings.ReplaceAll(b, "%", "%25")
+	case 10:
+		b := r.PickStr([]string{"...", ".b", "..b", "b.", "b..", ".%2e."})
+		u, err := url.PathUnescape(b)
+		hx.Must(err)
+		return u, b
 	}
 	return "b", "b"
 }
@@ -496,13 +509,14 @@ func genReq(r *hx.Rng) *reqSpec {
 }
 
 func witness(fx int, route, bucket, key, upload, src string, keys []string, kind string) *reqSpec {
-	s := &reqSpec{fx: fx, route: route, bucket: bucket, rawBkt: bucket, rawKey: key, upload: upload, src: src, keys: keys, part: 1, kind: kind}
+	rawBkt := strings.ReplaceAll(bucket, "%", "%25")
+	s := &reqSpec{fx: fx, route: route, bucket: bucket, rawBkt: rawBkt, rawKey: key, upload: upload, src: src, keys: keys, part: 1, kind: kind}
 	switch route {
 	case "RPostPolicy":
 		s.object = key
 	case "RPutBucket", "RDeleteBucket", "RHeadBucket":
 	default:
-		s.object = decodedObject(bucket, bucket, key)
+		s.object = decodedObject(rawBkt, bucket, key)
 	}
 	return s
 }
@@ -652,7 +666,7 @@ func runClean(e *s3env.Env, out *hx.Out, r *hx.Rng) {
 
 func main() {
 	out := hx.Flags("C29", 400)
-	out.Rule = "first 3 cases: the snapshots of the three fixtures as built (fx0: b with obj, x/y, .uploads/u1/0001.part; other with obj, keep, .uploads/u2/0001.part; /etc/secret. fx1: the upload id is a file, obj a directory, x a file, an empty folder e, a bucket bb, other with .uploads/u1. fx2: empty bucket b, a bucket named .uploads, /obj and /b/obj at the root); then 14 fixed witnesses of the findings and 8 fixed ordinary requests (cross-bucket copy / part copy, put part, complete, batch delete with purge, listing, POST upload); then 3 of 4 cases: one S3 request on a fixture (0,0,0,1,1,2 uniform; rebuilt before every request), bucket b (13/20), other, bb, nb, .uploads, or the names '..' / '.' written literally or percent-encoded, route uniform over 20 routes (put/get/head/delete object, batch delete, copy with/without REPLACE, copy part, new/put-part/complete/abort/list-parts, get/put/delete tagging, list objects V1/V2 x2, list uploads, put/delete/head bucket, POST upload x2 through a second gateway with an identity), key = 1-6 segments over {x,y,obj,new,..,.,empty,.uploads,u1,other,etc,secret,b,buckets,0001.part,%2e%2e,bb,e,%2f,%252e%252e} with optional leading/trailing slash or a fixed hostile/benign key (climbing, non-climbing '..', .uploads via '..'), written literally or with %2e%2e / %2f escapes; upload ids, copy sources (single, double and triple encoded '..' and '/'), listing prefixes and markers from fixed hostile lists or a generated key; 1 of 4 cases: a random path over {a,b,..,.,empty,.uploads,buckets} through Go's path.Clean, the real ServeMux, util.JoinPath, FullPath.DirAndName, filepath.Base/Dir; non-trivial = 2xx answer (request) / cleaning changed the path (clean); distinct = canonical decoded request incl. fixture"
+	out.Rule = "first 3 cases: the snapshots of the three fixtures as built (fx0: b with obj, x/y, .uploads/u1/0001.part; other with obj, keep, .uploads/u2/0001.part; /etc/secret. fx1: the upload id is a file, obj a directory, x a file, an empty folder e, a bucket bb, other with .uploads/u1. fx2: empty bucket b, a bucket named .uploads, a bucket named %62 with an upload u1, /obj and /b/obj at the root); then 15 fixed witnesses of the findings (k2: GET / DELETE / POST upload / put part on bucket '%62', GET on bucket '%2e%2e'), 4 former witnesses that are repaired (DELETE /., GET /../etc/secret, POST uploads: verdict 0) and 11 fixed ordinary requests (cross-bucket copy / part copy, put part, complete, batch delete with purge, listing, POST upload, buckets '...' and '..b', list parts of bucket '%62'); then 3 of 4 cases: one S3 request on a fixture (0,0,0,1,1,2 uniform; rebuilt before every request), bucket b (13/24), other, bb, nb, .uploads, the names '..' / '.' written literally or percent-encoded (refused by the router: no call), '%62' (2/24) or another name with a '%' (%6fther, %2e%2e, %2e, %zz, b%2fx, %2562, %62b, %2euploads, %6; written with %25), or a dotted name the router accepts (..., .b, ..b, b., b.., .%2e.), route uniform over 20 routes (put/get/head/delete object, batch delete, copy with/without REPLACE, copy part, new/put-part/complete/abort/list-parts, get/put/delete tagging, list objects V1/V2 x2, list uploads, put/delete/head bucket, POST upload x2 through a second gateway with an identity), key = 1-6 segments over {x,y,obj,new,..,.,empty,.uploads,u1,other,etc,secret,b,buckets,0001.part,%2e%2e,bb,e,%2f,%252e%252e} with optional leading/trailing slash or a fixed hostile/benign key (climbing, non-climbing '..', .uploads via '..'), written literally or with %2e%2e / %2f escapes; upload ids, copy sources (single, double and triple encoded '..' and '/'), listing prefixes and markers from fixed hostile lists or a generated key; 1 of 4 cases: a random path over {a,b,..,.,empty,.uploads,buckets} through Go's path.Clean, the real ServeMux, util.JoinPath, FullPath.DirAndName, filepath.Base/Dir; non-trivial = 2xx answer (request) / cleaning changed the path (clean); distinct = canonical decoded request incl. fixture"
 	w := newWorld()
 	defer w.e.Close()
 	e := w.e
@@ -668,10 +682,16 @@ func main() {
 		witness(0, "RGet", "b", ".uploads/u1/0001.part", "", "", nil, "witness-k1-get"),
 		witness(0, "RDelete", "b", ".uploads/u1", "", "", nil, "witness-k1-delete"),
 		witness(0, "RGet", "b", "x/../.uploads/u1/0001.part", "", "", nil, "witness-k1-dotdot-inside"),
-		witness(0, "RDeleteBucket", ".", "", "", "", nil, "witness-k2-delete-dot"),
-		witness(0, "RGet", "..", "etc/secret", "", "", nil, "witness-k2-get-dotdot"),
-		witness(0, "RPostPolicy", "oth", "er/obj", "", "", nil, "witness-k3-post"),
-		witness(0, "RPostPolicy", "b", "newobj", "", "", nil, "witness-k3-post-sibling"),
+		witness(0, "RGet", "%62", "obj", "", "", nil, "witness-k2-get"),
+		witness(0, "RDelete", "%62", "obj", "", "", nil, "witness-k2-delete"),
+		witness(0, "RPostPolicy", "%62", "posted", "", "", nil, "witness-k2-post"),
+		witness(2, "RPutPart", "%62", "k", "u1", "", nil, "witness-k2-putpart"),
+		witness(0, "RGet", "%2e%2e", "etc/secret", "", "", nil, "witness-k2-get-dotdot"),
+		// repaired in /repo: these former witnesses must now be verdict 0 (no call at all / inside the bucket)
+		witness(0, "RDeleteBucket", ".", "", "", "", nil, "repaired-delete-dot"),
+		witness(0, "RGet", "..", "etc/secret", "", "", nil, "repaired-get-dotdot"),
+		witness(0, "RPostPolicy", "oth", "er/obj", "", "", nil, "repaired-post"),
+		witness(0, "RPostPolicy", "b", "newobj", "", "", nil, "repaired-post-sibling"),
 		{fx: 0, route: "RList", bucket: "b", rawBkt: "b", prefix: "../other/", kind: "witness-k0-list", part: 1},
 		// ordinary requests (verdict 0): the successful path of the routes that address two
 		// buckets or build their paths from several inputs, on every run
@@ -683,6 +703,10 @@ func main() {
 		witness(0, "RBatchDelete", "b", "k", "", "", []string{"x/y", "obj"}, "plain-batch-purge"),
 		{fx: 0, route: "RList", bucket: "b", rawBkt: "b", prefix: "x/", marker: "", delim: true, v2: true, kind: "plain-list", part: 1},
 		witness(1, "RPostPolicy", "b", "/posted/obj", "", "", nil, "plain-post"),
+		// ordinary names the {bucket} pattern accepts, and a gRPC route of a "%" bucket (literal name)
+		witness(0, "RPutBucket", "...", "", "", "", nil, "plain-bucket-three-dots"),
+		witness(0, "RPut", "..b", "k", "", "", nil, "plain-bucket-dotdot-b"),
+		witness(2, "RListParts", "%62", "k", "u1", "", nil, "plain-listparts-percent-bucket"),
 	}
 	nfix := len(fixtures)
 	for i := 0; i < out.N; i++ {
